@@ -42,6 +42,7 @@ func (o c13op) String() string {
 }
 
 type c13live struct {
+	fresh     []*jsonschema.Schema // shared trees that nothing has resolved yet: Resolve ops race on their FIRST resolution
 	schemas   []*jsonschema.Schema
 	resolveds []*jsonschema.Resolved
 	opts      *jsonschema.ForOptions
@@ -68,22 +69,34 @@ func (w *c13world) build() (*c13live, string) {
 	l := &c13live{}
 	for i, s := range w.schemas {
 		var sch jsonschema.Schema
-		if err := json.Unmarshal([]byte(s.Text), &sch); err != nil {
-			return nil, fmt.Sprintf("schema %d does not unmarshal: %v", i, err)
+		var res *jsonschema.Resolved
+		var err error
+		r := Op(func() {
+			if err = json.Unmarshal([]byte(s.Text), &sch); err != nil {
+				return
+			}
+			res, err = sch.Resolve(&jsonschema.ResolveOptions{BaseURI: s.Base, Loader: w.loaderFor(s)})
+		})
+		w.c.CheckOp("Resolve (building the shared values)", r)
+		if r.Panicked {
+			return nil, fmt.Sprintf("schema %d: %v", i, r)
 		}
-		res, err := sch.Resolve(&jsonschema.ResolveOptions{BaseURI: s.Base, Loader: w.loaderFor(s)})
 		if err != nil {
-			return nil, fmt.Sprintf("schema %d does not resolve: %v", i, err)
+			return nil, fmt.Sprintf("schema %d does not unmarshal/resolve: %v", i, err)
 		}
 		l.schemas = append(l.schemas, &sch)
 		l.resolveds = append(l.resolveds, res)
+		var fresh jsonschema.Schema
+		if rf := Op(func() { json.Unmarshal([]byte(s.Text), &fresh) }); rf.Panicked {
+			return nil, fmt.Sprintf("schema %d: %v", i, rf)
+		}
+		l.fresh = append(l.fresh, &fresh)
 	}
 	l.opts = &jsonschema.ForOptions{IgnoreInvalidTypes: w.ignore}
 	if len(w.tsSpec) > 0 {
 		l.opts.TypeSchemas = map[reflect.Type]*jsonschema.Schema{}
 		for k, tn := range w.tsSpec {
-			l.opts.TypeSchemas[TSTypes[tn]] = &jsonschema.Schema{Type: "object", Title: fmt.Sprintf("override%d", k),
-				Properties: map[string]*jsonschema.Schema{"o": {Type: "string"}}}
+			l.opts.TypeSchemas[TSTypes[tn]] = overrideSchema(tn, k)
 		}
 	}
 	return l, ""
@@ -116,7 +129,11 @@ func (w *c13world) exec(l *c13live, op c13op) string {
 		b, err := json.Marshal(cl)
 		return fmt.Sprintf("%v %s", err != nil, b)
 	case 5:
-		res, err := l.schemas[op.S].Resolve(&jsonschema.ResolveOptions{BaseURI: s.Base, Loader: w.loaderFor(s)})
+		tree := l.schemas[op.S]
+		if op.I%2 == 0 {
+			tree = l.fresh[op.S]
+		}
+		res, err := tree.Resolve(&jsonschema.ResolveOptions{BaseURI: s.Base, Loader: w.loaderFor(s)})
 		if err != nil {
 			return "err"
 		}
@@ -244,28 +261,11 @@ func driveC13(c *Ctx) {
 	policy := simrt.Choose(simrt.SOrder, 0, simrt.NumOrderPolicies)
 	c.In("density=%d cold=%v miss=%d/4 order=%s", density, cold, miss, policyName(policy))
 
-	// Reference: the same operations one after another on an independently built world.
-	ref := make([][]c13res, k)
-	refLive, why := w.build()
-	if refLive == nil {
-		c.Probe("world-rejected")
-		c.Out("world rejected: %s", why)
-		return
-	}
-	for g := range ops {
-		ref[g] = make([]c13res, len(ops[g]))
-		for i, op := range ops[g] {
-			var d string
-			r := Op(func() { d = w.exec(refLive, op) })
-			c.CheckOp(op.String(), r)
-			ref[g][i] = c13res{d, r}
-			c.Out("ref g%d %s = %.120s %v", g, op, d, r)
-		}
-	}
 	// The concurrent run, on fresh shared values.
 	live, why := w.build()
 	if live == nil {
-		c.Fail("C14/repeatability", "build", "the world built the first time but not the second: %s", why)
+		c.Probe("world-rejected")
+		c.Out("world rejected: %s", why)
 		return
 	}
 	if cold && simrt.ResetCaches != nil {
@@ -293,6 +293,25 @@ func driveC13(c *Ctx) {
 	simrt.SetPreemptDensity(0)
 	simrt.SetCacheMiss(0, 1)
 	simrt.SetOrderPolicy(simrt.OrderSorted)
+	// Reference: the same operations one after another on an independently built world. It is
+	// computed AFTER the concurrent run, so that process-wide caches the simulator cannot reset
+	// are as cold as they can be when the goroutines start.
+	ref := make([][]c13res, k)
+	refLive, why := w.build()
+	if refLive == nil {
+		c.Fail("C14/repeatability", "build", "the world built the first time but not the second: %s", why)
+		return
+	}
+	for g := range ops {
+		ref[g] = make([]c13res, len(ops[g]))
+		for i, op := range ops[g] {
+			var d string
+			r := Op(func() { d = w.exec(refLive, op) })
+			c.CheckOp(op.String(), r)
+			ref[g][i] = c13res{d, r}
+			c.Out("ref g%d %s = %.120s %v", g, op, d, r)
+		}
+	}
 	compare := func(phase string, got [][]c13res) {
 		for g := range ops {
 			for i, op := range ops[g] {
